@@ -129,8 +129,11 @@ func (g *Gen) FormatUnits(u *Units, n int64) string {
 // ---------------------------------------------------------------------------------------------
 // schemas
 
-var patternPool = []string{`^[a-z]+$`, `^a`, `[0-9]+`, `^.{2,4}$`, `x|y`, `^$`, `^[A-Za-z0-9_]*$`}
+var patternPool = []string{`^[a-z]+$`, `^a`, `[0-9]+`, `^.{2,4}$`, `x|y`, `^$`, `^[A-Za-z0-9_]*$`,
+	// patterns made of literal characters only (searched for, not anchored, unless they say so)
+	`abc`, `^abc$`, `\.yaml`, `://`, `23`, `b`, `^ab`, `bc$`, `a b`}
 var stringPool = []string{"", "a", "ab", "abc", "abcd", "x", "y", "5", "10", "-3", "true", "hello", "A", "é", "日本", "a b", "1.5", "007", " 7", "+4", "cpu%", "%s", "100%d",
+	"xabc", "abcx", "xabcx", "file.yaml", "http://host", "12345", "xa bx",
 	// long texts in multi-byte scripts: more than 48 / 64 BYTES but fewer CHARACTERS, and with a character
 	// straddling those byte offsets (error messages quote the offending value)
 	"日本語のテキストはここにあります、長い文章です。これは長い", "Список дел, которые нужно сделать сегодня и завтра утром",
